@@ -1,0 +1,63 @@
+//go:build verif
+
+// Contracts for the deductive verifier in /verif (comment-only file; compiled out
+// unless the build tag `verif` is set, and even then contains no executable code).
+package inverted
+
+// ---- sortable keys (property C19, consumed by C02) ----
+
+//@ spec be64at(b []byte, o int) uint64 = uint64(b[o])<<56 | uint64(b[o+1])<<48 | uint64(b[o+2])<<40 | uint64(b[o+3])<<32 | uint64(b[o+4])<<24 | uint64(b[o+5])<<16 | uint64(b[o+6])<<8 | uint64(b[o+7])
+//@ spec decI64(k uint64) int64 = int64(k) ^ (-9223372036854775808)
+//@ spec decF64(k uint64) float64 = f64frombits(ite(k & 0x8000000000000000 != 0, k ^ 0x8000000000000000, k ^ 0xffffffffffffffff))
+//@ spec validF64Key(k uint64) bool = !isNaN(decF64(k)) && k != 0x7fffffffffffffff
+
+//@ func toByteSortable[int64]
+//@   property C19 C02
+//@   arith bv
+//@   ensures err == nil && len(result0) == 8
+//@   ensures decI64(be64at(result0, 0)) == v
+
+//@ func toByteSortable[float64]
+//@   property C19 C02
+//@   arith bv
+//@   ensures err == nil && len(result0) == 8
+//@   ensures !isNaN(v) ==> decF64(be64at(result0, 0)) == v
+//@   ensures !isNaN(v) ==> validF64Key(be64at(result0, 0))
+
+//@ func toByteSortable[string]
+//@   property C19 C02
+//@   arith bv
+//@   ensures err == nil && string(result0) == v
+
+//@ func fromByteSortable[int64]
+//@   property C19 C02
+//@   arith bv
+//@   requires len(b) >= 8
+//@   ensures result == nil && *v == decI64(be64at(b, 0))
+
+//@ func fromByteSortable[float64]
+//@   property C19 C02
+//@   arith bv
+//@   requires len(b) >= 8
+//@   ensures result == nil && sameFloat(*v, decF64(be64at(b, 0)))
+
+//@ func fromByteSortable[string]
+//@   property C19 C02
+//@   arith bv
+//@   ensures result == nil && *v == string(b)
+
+// Order preservation and injectivity, stated as in the property: byte-wise key order is
+// value order. Big-endian 8-byte images compare like the unsigned integers they encode
+// (lemma be64_order below), so the statements are over the integer image of the key.
+
+//@ lemma i64_order(k1 uint64, k2 uint64): (k1 < k2) == (decI64(k1) < decI64(k2))
+//@   property C19 C02
+//@   arith bv
+
+//@ lemma f64_order(k1 uint64, k2 uint64): validF64Key(k1) && validF64Key(k2) ==> ((k1 < k2) == (decF64(k1) < decF64(k2)))
+//@   property C19 C02
+//@   arith bv
+
+//@ lemma f64_injective(k1 uint64, k2 uint64): validF64Key(k1) && validF64Key(k2) && decF64(k1) == decF64(k2) ==> k1 == k2
+//@   property C19 C02
+//@   arith bv
